@@ -287,6 +287,8 @@ pub const LINE_PATS: &[LinePat] = &[
     // significant blanks at the pattern's edges (the attribute value is the pattern, verbatim)
     LinePat { re: "^- ", matches: |t| t.starts_with("- ") },
     LinePat { re: " = ", matches: |t| t.contains(" = ") },
+    // `.` crosses everything but a line feed — a bare carriage return in the middle of a line included
+    LinePat { re: "^a.b$", matches: |t| { let c: Vec<char> = t.chars().collect(); c.len() == 3 && c[0] == 'a' && c[2] == 'b' && c[1] != '\n' } },
     // zero-width assertion only: a word boundary exists iff the line has a word character
     LinePat { re: r"\b", matches: |t| t.chars().any(|c| c.is_alphanumeric() || c == '_') },
 ];
